@@ -99,6 +99,10 @@ def enumerate_cases(tier, scope):
                         yield {'source': SOURCE, 'dest': dests[1], 'mode': mode, 'rules': list(rules), 'namespace': namespace, 'options': {}, 'via': via, 'sep': sep}
     yield {'source': SOURCE, 'dest': dests[0], 'mode': 'both', 'rules': ['a'], 'namespace': None, 'options': {}, 'via': 'inputs'}
     yield {'source': SOURCE, 'dest': dests[0], 'mode': 'both', 'rules': ['a'], 'namespace': 't', 'options': {}, 'via': 'absorb'}
+    for namespace in (None, 't', 't.u', 'fresh.deep'):
+        for via in ('inputs', 'outputs'):
+            for di in (0, 1, 2):
+                yield {'source': SOURCE, 'dest': dests[di], 'mode': 'both', 'rules': ['a', 'ab.x'], 'namespace': namespace, 'options': {}, 'via': via}
 
 
 @st.composite
@@ -255,6 +259,25 @@ def execute(case):
     except Exception as exc:  # noqa: BLE001
         got_error = exc
 
+    if exp_error is not None and via != 'absorb' and case['mode'] == 'both':
+        # a refused call leaves the destination as it was: tried on a spec object that can be looked at afterwards
+        from plumpy import ProcessSpec
+
+        try:
+            spec_cls = pm.spec_class_for(sep) if sep else ProcessSpec
+            spec_obj = spec_cls()
+            pm.build_namespace(spec_obj, io, dest)
+            before = em.describe_real(getattr(spec_obj, via), io)
+            try:
+                getattr(spec_obj, 'expose_' + via)(_make_process('Src2', source, via, sep=sep), **kwargs)
+                v('invalid-expose-accepted', f'{exp_error} - but the call on a spec object succeeded')
+            except ValueError:
+                after = em.describe_real(getattr(spec_obj, via), io)
+                diff = _diff(before, after)
+                if diff:
+                    v('refused-expose-changed-destination', f'include together with exclude was rejected, but the destination changed: {diff}')
+        except Exception as exc:  # noqa: BLE001
+            v('refused-expose-error-type', f'{type(exc).__name__}: {str(exc)[:160]}')
     if exp_error is not None:
         if got_error is None:
             v('invalid-expose-accepted', f'{exp_error} - but the call succeeded')
